@@ -151,6 +151,26 @@ class FaultEnumScenario(WorldScenario):
         self.after_fault(w, res, op["fault_class"], patterns, pre_hash)
         return res
 
+    def main_op(self, w, r):
+        patterns = self._patterns(w, r) if r.chance(0.3) else []
+        return {"op": "gwf", "argv": ["run"] + patterns, "cwd": "root"}
+
+    def enumerate_faults(self, seams):
+        faults = []
+        cmd_index = {}
+        for i, (kind, detail, is_state) in enumerate(seams, start=1):
+            faults.append({"kill_at": [i, "before"]})
+            faults.append({"intr_at": i})
+            if kind.startswith("cmd:"):
+                exe = kind[4:]
+                cmd_index[exe] = cmd_index.get(exe, 0) + 1
+                for fk in ("F1", "F2", "F3"):
+                    faults.append({"cmd_faults": [[exe, cmd_index[exe], fk]]})
+                faults.append({"kill_at": [i, "after"]})
+            else:
+                faults.append({"io_fault": [i, errno.ENOSPC]})
+        return faults
+
     # ------------------------------------------------------------------ main
     def run(self):
         if self.replaying:
@@ -186,8 +206,7 @@ class FaultEnumScenario(WorldScenario):
                 self.violation = w0.pending_violation
                 self.trace = t0
                 return self
-            patterns = self._patterns(w0, r) if r.chance(0.3) else []
-            run_op = {"op": "gwf", "argv": ["run"] + patterns, "cwd": "root"}
+            run_op = self.main_op(w0, r)
             mark = len(t0.events)
             self.apply(w0, run_op)
             seams = [(kw["kind"], kw["detail"], "-backend-tracked.json" in kw["detail"]
@@ -200,19 +219,7 @@ class FaultEnumScenario(WorldScenario):
                 return self
             n_accept = sum(1 for k, d, s in seams if k == "cmd:" + SUBMIT_EXE[self.knobs["backend"]])
         # 2. enumerate the fault points of that run
-        faults = []
-        cmd_index = {}
-        for i, (kind, detail, is_state) in enumerate(seams, start=1):
-            faults.append({"kill_at": [i, "before"]})
-            faults.append({"intr_at": i})
-            if kind.startswith("cmd:"):
-                exe = kind[4:]
-                cmd_index[exe] = cmd_index.get(exe, 0) + 1
-                for fk in ("F1", "F2", "F3"):
-                    faults.append({"cmd_faults": [[exe, cmd_index[exe], fk]]})
-                faults.append({"kill_at": [i, "after"]})
-            else:
-                faults.append({"io_fault": [i, errno.ENOSPC]})
+        faults = self.enumerate_faults(seams)
         self.extra["fault_points"] = len(faults)
         self.extra["evaluations"] = len(faults) + 1
         self.extra["scenarios_with_accepted_jobs"] = 1 if n_accept else 0
